@@ -117,4 +117,17 @@ def run(run):
                 if id(top) not in ids or pc.omask(top.extent) != (1 << pc.n) - 1:
                     run.fail('lattice[()] is not the top concept', repr(top), None, [pc.line])
                 run.case(pc.line + '|index', nt)
+        if pc.n >= 3 and pc.m >= 3 and pc.n * pc.m <= 16 and not getattr(pc, 'reloaded', False):
+            # a str key is an iterable of one-character labels, also when their concatenation is a label itself
+            import concepts
+            with guard(run, 'context[str] with one-character labels', [pc.line]):
+                o1 = ['a', 'b', 'ab'] + ['x%d' % i for i in range(pc.n - 3)]
+                p1 = ['p', 'q', 'pq'] + ['y%d' % j for j in range(pc.m - 3)]
+                c1 = concepts.Context(o1, p1, pc.bools)
+                if c1['ab'] != c1[('a', 'b')] or c1['pq'] != c1[('p', 'q')] or c1['ba'] != c1[('a', 'b')]:
+                    run.fail("context['ab'] is not context[('a', 'b')]", [c1['ab'], c1['pq']], [c1[('a', 'b')], c1[('p', 'q')]], [pc.line],
+                             {'objects': o1, 'properties': p1})
+                if c1[('ab',)] != c1[['ab']] or c1.lattice['ab'] is not c1.lattice[('a', 'b')]:
+                    run.fail("lattice['ab'] is not lattice[('a', 'b')]", None, None, [pc.line], {'objects': o1, 'properties': p1})
+            run.count('str keys')
         run.count('contexts')
